@@ -385,6 +385,8 @@ func c17Tokens(n, variant int) []string {
 	it := make([]string, 0, n)
 	for i := 1; i <= n; i++ {
 		switch {
+		case variant%3 == 0 && i == 2:
+			it = append(it, "i3z") // a bound's text as a proper prefix of an earlier item
 		case variant%3 == 1 && i%4 == 0:
 			it = append(it, "i2") // repeats
 		case variant%3 == 2 && i%5 == 0:
